@@ -1,3 +1,5 @@
 package main
 
 func c05R2Explore(c *Ctx) {}
+
+func c12Traces(c *Ctx) {}
